@@ -120,4 +120,23 @@ func (z *Element) Mul(x, y *Element) *Element {
 	mul(z, &scratch, y)'
 diag "(xii) ffg.Element.Mul: package-level scratch Element written"
 
+fresh; mutate /tmp/effrepo/ff/element.go '	if _, ok := vv.SetString(s, 10); !ok {' '	defer bigIntPool.Put(vv)
+	if _, ok := vv.SetString(s, 10); !ok {'
+diag "(xiii) ff.Element.SetString: pooled object Put twice (defer + explicit Put)"
+
+fresh; mutate /tmp/effrepo/ffg/element.go '	vv.SetBytes(e)
+
+	// set big int
+	z.SetBigInt(vv)
+
+	// put temporary object back in pool
+	bigIntPool.Put(vv)' '	vv.SetBytes(e)
+
+	// put temporary object back in pool
+	bigIntPool.Put(vv)
+
+	// set big int
+	z.SetBigInt(vv)'
+diag "(xiv) ffg.Element.SetBytes: pooled object used after its Put"
+
 rm -rf /tmp/effrepo $S
